@@ -98,6 +98,7 @@ def main(argv=None):
     xc_checked = 0
     xc_worst = 0.0
     kinds = {}
+    z3tot = {}
     for r in sorted(results, key=lambda r: r["job"]):
         if r["error"]:
             errors.append((r["job"], r["error"], r.get("trace", "")))
@@ -105,6 +106,8 @@ def main(argv=None):
         xc = r.get("crosscheck") or {}
         if xc and not xc.get("ok", True):
             errors.append((r["job"], "cross-check: %s" % xc.get("error"), ""))
+        for kz, vz in (r.get("z3") or {}).items():
+            z3tot[kz] = z3tot.get(kz, 0) + vz
         xc_checked += xc.get("checked", 0)
         xc_worst = max(xc_worst, xc.get("worst_rel_err", 0.0))
         functions.update(r["functions"])
@@ -187,7 +190,9 @@ def main(argv=None):
                 obligations=n_obl, discharged=n_ok,
                 checker_cmd="./check %s --tier %s" % (prop, tier),
                 trusted_base=TRUSTED_BASE,
-                back_ends=dict(ring_normaliser=n_ok),
+                back_ends=dict(ring_normaliser_and_evaluation=n_ok, z3_second_opinion_on_a_seeded_sample=dict(
+                    confirmed_unsat=z3tot.get("unsat", 0), unknown_or_timeout=z3tot.get("unknown", 0), disagreements=z3tot.get("sat", 0),
+                    outside_exported_fragment=z3tot.get("skipped", 0), seconds=round(z3tot.get("secs", 0.0), 2))),
                 obligation_kinds=kinds,
                 solver_seconds=round(solver_secs, 2),
                 jobs=len(results),
